@@ -147,6 +147,7 @@ class _Checker(object):
         self.part = part
         self.counts = {}
         self.unjudged = 0
+        self.hang_only = 0      # cases outside the statement's quantifier: only termination is judged
         col.max_failures = 600
 
     def fail(self, check, cls, witness, detail):
@@ -165,6 +166,9 @@ class _Checker(object):
         if kind == 'hang':
             col.fail(check=part + '/no-hang', cls={'clause': 'no-hang', 'feature': '%s/%s' % (case['fam'], entry)},
                      witness=wit, detail='call did not end within %d s' % TIMEOUT_S)
+            return
+        if case.get('judge') == 'no-hang-only':
+            self.hang_only += 1
             return
         if kind == 'exc':
             if not isinstance(val, ParserException):
@@ -227,6 +231,7 @@ def _result(col, chk):
     res = col.result()
     res['failure_class_counts'] = sorted(('%s %s' % (k[0], dict(k[1]).get('feature')), n) for k, n in chk.counts.items())
     res['returned_documents_not_judged_for_wellformedness'] = chk.unjudged
+    res['evaluations_judged_for_termination_only'] = chk.hang_only
     return res
 
 
@@ -870,7 +875,7 @@ def _classify_xml(case):
     if case['wf'] is not True:
         return
     try:
-        data = case['text'].encode('utf-8')
+        data = case['data'] if case.get('data') is not None else case['text'].encode('utf-8')
         root = PyET.fromstring(data)
     except Exception:                        # noqa  (expat disagrees or text not encodable: no claim)
         return
